@@ -75,6 +75,33 @@ Theorem C34_visible_stays_visible : forall r, wf_route r ->
 Proof. exact visible_stays_visible. Qed.
 Print Assumptions C34_visible_stays_visible.
 
+(* ---- histories.  RouteFromProtoRoute(.., dedup = true) sends every attribute block through the
+   process-wide cache of route/bgp_path_cache.go, so a conversion could depend on what was converted
+   before.  run_history h l (Model/APIConv.v) converts the routes of l one after the other, each
+   with its own dedup flag, starting in the process state h (heap_ok: every address stored in the
+   cache has been allocated - the initial state, and any state reached by conversions or by other
+   users of the cache). *)
+
+(* In the code as it is the cache cannot hit on this way (its key contains the freshly allocated
+   NextHop/Source pointers): every conversion of every history returns exactly what it returns alone. *)
+Theorem C34_history_independent : forall l h, heap_ok h ->
+  run_history h l = map (fun rd => roundtrip (fst rd)) l.
+Proof. exact run_history_stateless. Qed.
+Print Assumptions C34_history_independent.
+
+(* The round trip holds for every conversion in any history, with dedup on or off. *)
+Theorem C34_roundtrip_history : forall l h, heap_ok h -> Forall (fun rd => wf_route (fst rd)) l ->
+  Forall2 (fun rd res => exists r', res = Ok r' /\ r_pfx r' = r_pfx (fst rd) /\
+                                    Forall2 path_agree (r_paths (fst rd)) (r_paths r') /\
+                                    Forall2 (fun p p' => reason_named p -> p_hidden p' = p_hidden p)
+                                            (r_paths (fst rd)) (r_paths r'))
+          l (run_history h l).
+Proof. exact roundtrip_history. Qed.
+Print Assumptions C34_roundtrip_history.
+
+Example C34_example_heap : heap_ok empty_heap.
+Proof. exact heap_ok_empty. Qed.
+
 (* ---- non-vacuity: a route with a static path and a BGP path that uses every field *)
 Definition ex_bgp : bgp_path :=
   mkB (Some (mkA (Some ex_ip) (Some (mkIP 42540766411282592856903984951653826560 1 false))
@@ -124,3 +151,14 @@ Proof.
     do 3 eexists. split; [reflexivity|]. split; [reflexivity|]. split; [reflexivity|].
     split; [reflexivity|]. split; constructor.
 Qed.
+
+(* two routes that differ in the MED only, converted one after the other with dedup = true *)
+Definition ex_med (m : N) : route :=
+  mkR (Some (mkPfx (mkIP 0 167772160 true) 8))
+      [mkPath BGPPathType 0 0 0 None
+         (Some (mkB (Some (mkA (Some ex_ip) (Some ex_ip) 100 m 1 0 None true false 0 0))
+                    (Some []) None None None [] 0 0 false))].
+Example C34_example_history :
+  run_history empty_heap [(ex_med 17, true); (ex_med 0, true); (ex_med 4000000000, true)] =
+  [Ok (ex_med 17); Ok (ex_med 0); Ok (ex_med 4000000000)].
+Proof. vm_compute. reflexivity. Qed.
